@@ -645,7 +645,16 @@ class MarkdownNormalizer(Renderer):
         self._current_inline_text = ""
         # A setext heading may span several lines; an ATX heading cannot, so the line
         # breaks inside its text become spaces (else the rest would turn into a paragraph).
-        children_content = re.sub(r"[ \t]*\\?\n[ \t]*", " ", children_content)
+        # (Not one regex: `[ \t]*\\?\n` is retried at every space of a long run of spaces.)
+        if "\n" in children_content:
+            first, *rest = children_content.split("\n")
+            heading_lines = [first, *(line.lstrip(" \t") for line in rest)]
+            children_content = " ".join(
+                [
+                    *(line.removesuffix("\\").rstrip(" \t") for line in heading_lines[:-1]),
+                    heading_lines[-1],
+                ]
+            )
         # Text that ends in a run of `#`s after a space (possible in a setext heading) would
         # be taken for the optional closing sequence of an ATX heading and disappear.
         children_content = re.sub(r"(^|[ \t])(#+[ \t]*)$", r"\1\\\2", children_content)
